@@ -32,6 +32,9 @@ type Answer struct {
 	EchoQuestion *dnsref.Question
 	// AfterOPT: additional records that FOLLOW the OPT record of an extended rcode (RFC 6891 does not give the OPT record a place)
 	AfterOPT []dnsref.RR
+	// NoQuestion: the response has no question section at all (the 12-octet header-only reply many servers send with FORMERR,
+	// SERVFAIL, REFUSED, NOTIMP; legal, RFC 1035 4.1.1 QDCOUNT 0)
+	NoQuestion bool
 }
 
 // Unparseable is the logged name of a query the independent codec could not parse.
@@ -111,6 +114,9 @@ func (s *Server) RoundTrip(req *http.Request) (*http.Response, error) {
 	m := &dnsref.Msg{ID: q.ID, Flags: 0x8180 | uint16(a.RCode&0xf), Q: q.Q}
 	if a.EchoQuestion != nil {
 		m.Q = []dnsref.Question{*a.EchoQuestion}
+	}
+	if a.NoQuestion {
+		m.Q = nil
 	}
 	m.Sec[0] = a.Records
 	m.Sec[2] = a.Additional
